@@ -135,8 +135,16 @@ impl<'a> SendLastStateProofProcess<'a> {
             );
             false
         } else if sampled_count != 0 {
-            let start_header = &headers[reorg_count];
-            let end_header = &headers[reorg_count + sampled_count + last_n_count - 1];
+            let end_index = reorg_count + sampled_count + last_n_count - 1;
+            // The epoch of the genesis block has no length, so the difficulty of its epoch
+            // could NOT be calculated from its header: start from the next header.
+            let start_index = if headers[reorg_count].is_genesis() && reorg_count < end_index {
+                reorg_count + 1
+            } else {
+                reorg_count
+            };
+            let start_header = &headers[start_index];
+            let end_header = &headers[end_index];
             match verify_tau(
                 start_header.epoch(),
                 start_header.compact_target(),
